@@ -51,24 +51,29 @@ Proof.
   subst c. vm_compute in H. discriminate H.
 Qed.
 
-(* the writer spells every name through w_safename; it is injective, so σ can be lifted to identifiers *)
+(* the writer spells every name through cl_safename; it is injective, so σ can be lifted to identifiers *)
 Definition unsafename (id : string) : string := if starts_with_char """" id then drop_ends id else id.
 
-Lemma unsafename_safename : forall s, unsafename (w_safename s) = s.
+Lemma unsafename_quote : forall s, unsafename (quote s) = s.
 Proof.
-  intros s. unfold w_safename, unsafename. destruct (str_forallb is_safechar s) eqn:E.
-  - rewrite (safe_not_quote s E). reflexivity.
-  - change (starts_with_char """" (quote s)) with true. cbv iota. apply drop_ends_quote.
+  intros s. unfold unsafename. change (starts_with_char """" (quote s)) with true. cbv iota. apply drop_ends_quote.
 Qed.
 
-Lemma w_safename_inj : forall s t, w_safename s = w_safename t -> s = t.
+Lemma unsafename_safename : forall s, unsafename (cl_safename s) = s.
+Proof.
+  intros s. unfold cl_safename. destruct (existsb (String.eqb s) clafer_keywords); [apply unsafename_quote|].
+  unfold w_safename. destruct (str_forallb is_safechar s) eqn:E; [|apply unsafename_quote].
+  unfold unsafename. rewrite (safe_not_quote s E). reflexivity.
+Qed.
+
+Lemma cl_safename_inj : forall s t, cl_safename s = cl_safename t -> s = t.
 Proof.
   intros s t H. rewrite <- (unsafename_safename s), <- (unsafename_safename t), H. reflexivity.
 Qed.
 
 Definition lift (σ : string -> bool) : string -> bool := fun id => σ (unsafename id).
 
-Lemma lift_safename : forall σ s, lift σ (w_safename s) = σ s.
+Lemma lift_safename : forall σ s, lift σ (cl_safename s) = σ s.
 Proof. intros σ s. unfold lift. rewrite unsafename_safename. reflexivity. Qed.
 
 (* ================================================================== the tree: none *)
@@ -78,17 +83,17 @@ Definition clafer_kids (f : feature) : list clf :=
 
 Lemma clafer_tree_unfold : forall p i rs,
   clafer_tree p (Feature i rs) =
-  Clf (clafer_group (Feature i rs)) (w_safename (f_name i))
+  Clf (clafer_group (Feature i rs)) (cl_safename (f_name i))
       (negb (Nat.eqb (List.length (f_attrs i)) 0))
       (feat_is_optional p (Feature i rs))
-      (map (fun a => (w_safename (a_name a), clafer_value (a_default a))) (f_attrs i))
+      (map (fun a => (cl_safename (a_name a), clafer_value (a_default a))) (f_attrs i))
       (clafer_kids (Feature i rs)).
 Proof.
   intros p i rs. cbn [clafer_tree]. f_equal. unfold clafer_kids. cbn [rels].
   apply flat_map_ext. intros [a b cs]. reflexivity.
 Qed.
 
-Lemma cl_name_tree : forall p f, cl_name (clafer_tree p f) = w_safename (name f).
+Lemma cl_name_tree : forall p f, cl_name (clafer_tree p f) = cl_safename (name f).
 Proof. intros p [i rs]. reflexivity. Qed.
 
 Lemma cl_optional_tree : forall p f, cl_optional (clafer_tree p f) = feat_is_optional p f.
@@ -130,8 +135,8 @@ Proof.
 Qed.
 
 Lemma cl_operand_eval : forall σ a ca,
-  (forall e, clafer_node a = Ok e -> cx_eval σ e = evalb (fun s => σ (w_safename s)) a) ->
-  cl_operand a = Ok ca -> cx_eval σ ca = evalb (fun s => σ (w_safename s)) a.
+  (forall e, clafer_node a = Ok e -> cx_eval σ e = evalb (fun s => σ (cl_safename s)) a) ->
+  cl_operand a = Ok ca -> cx_eval σ ca = evalb (fun s => σ (cl_safename s)) a.
 Proof.
   intros σ a ca IH H. unfold cl_operand in H.
   destruct (clafer_node a) as [cx|e] eqn:E; [|discriminate H].
@@ -145,9 +150,9 @@ Proof.
     destruct (cx_eval σ a), (cx_eval σ b); reflexivity.
 Qed.
 
-(* general form: any interpretation τ of the identifiers; the constraint is read through w_safename *)
+(* general form: any interpretation τ of the identifiers; the constraint is read through cl_safename *)
 Lemma clafer_node_core : forall τ n, WF n -> forall e, clafer_node n = Ok e ->
-  cx_eval τ e = evalb (fun s => τ (w_safename s)) n.
+  cx_eval τ e = evalb (fun s => τ (cl_safename s)) n.
 Proof.
   intros τ n W. induction W as [s|a Ha IHa|o a b Ho Ha IHa Hb IHb]; intros e H.
   - cbn in H. inversion H; subst e. reflexivity.
@@ -220,7 +225,7 @@ Qed.
 
 (* every attribute is declared under the identifier it is used with *)
 Theorem C11_identifiers : forall m d f a, clafer_write m = Ok d -> In f (get_features m) ->
-  In a (f_attrs (info f)) -> In (w_safename (a_name a)) (map fst (cd_attrdecls d)).
+  In a (f_attrs (info f)) -> In (cl_safename (a_name a)) (map fst (cd_attrdecls d)).
 Proof.
   intros m d f a H Hf Ha. unfold clafer_write in H.
   destruct (mapM (fun c => clafer_node (c_ast c)) (ctcs m)) as [cs|e]; [|discriminate H].
